@@ -13,7 +13,7 @@ import (
 var ttlBoundary = []int64{-2 * int64(time.Second), -int64(time.Second), -1, 0, 1, 2, 7, 100, int64(time.Millisecond), int64(time.Second), int64(time.Hour)}
 
 func (g *genCtx) ttlWide(prop string) int64 {
-	if (prop == "C01" || prop == "C12" || prop == "C11") && g.r.Bool(0.04) {
+	if prop != "C09" && g.r.Bool(0.04) {
 		return math.MaxInt64 - g.r.Int63n(int64(200*365*24)*int64(time.Hour)) // now+d is not representable
 	}
 	if prop == "C09" {
@@ -162,7 +162,7 @@ func genSeqCache(prop string, seed uint64, tier string, kinds []string) *SeqScen
 		return Op{K: XAdvance, D: d, N: mt}
 	}
 	val := func() int64 {
-		if (prop == "C12" || prop == "C01") && g.r.Bool(0.05) {
+		if prop != "C15" && g.r.Bool(0.05) {
 			return 0 // the zero / nil value
 		}
 		return g.val()
